@@ -19,7 +19,7 @@ import time
 
 from bounded_standin import SpecDecodeError, spec_decode
 import coercion_standin as cs
-from coercion_standin import FAIL, ENVS, Enc, coerce_args, gen_type, gen_value, idl_hash, show, signed_view
+from coercion_standin import ANY, FAIL, ENVS, Enc, coerce_args, gen_type, gen_value, idl_hash, show, signed_view
 
 H = idl_hash
 
@@ -250,6 +250,19 @@ def run(pid, build_replay):
                 elif k == 29 and want[1] is not None and len(want[1][1]) != 1:
                     continue                                         # Option<[bool; 1]> of another length: error or null, not pinned here
             cases.append((f"nt {k} {msg.hex()}", rust, tys, vals, exps, want, env, norm))
+            if rnd.random() < 0.25:
+                # arbitrary damage (C06): a value or an error, never a panic -- also through the serde impls of native types
+                b = bytearray(msg)
+                for _ in range(rnd.choice([1, 1, 2, 3])):
+                    j = rnd.randrange(len(b))
+                    c = rnd.random()
+                    if c < 0.6:
+                        b[j] = rnd.choice([0x00, 0x01, 0x7f, 0x80, 0xff, b[j] ^ (1 << rnd.randrange(8)), rnd.getrandbits(8)])
+                    elif c < 0.8 and len(b) > 1:
+                        del b[j]
+                    else:
+                        b.insert(j, b[j])
+                cases.append((f"nt {k} {bytes(b).hex()}", rust, tys, "arbitrary damage", exps, ANY, env, norm))
     # hand-made messages in which the bytes a short-reading visitor would leave behind happen to be a well-formed next value
     # (the repaired defects D11 and D12 decoded these to different values without an error)
     for k, tys, vals in [
@@ -286,7 +299,10 @@ def run(pid, build_replay):
         ENVS["w"], ENVS["e"] = env, env
         nfail += want is FAIL
         why = None
-        if want is FAIL:
+        if want is ANY:
+            if o != "err" and not o.startswith("ok "):
+                why = ("a value or an error (the message was damaged at random; decoding must still return)", o[:160])
+        elif want is FAIL:
             if o != "err":
                 why = ("an error (the coercion relation has no result)", o[:160])
         elif not o.startswith("ok "):
@@ -299,8 +315,10 @@ def run(pid, build_replay):
                     why = (f"the coerced values {want}", f"{dv}")
             except (SpecDecodeError, Exception) as e:   # noqa: B014
                 why = ("a well-formed re-encoding of the result", f"{type(e).__name__}: {e}")
+        if pid == "C06" and (o == "err" or o.startswith("ok ")):
+            why = None            # under C06 only "decoding returns" is in question, not what it returns
         known = None
-        if why and want is not FAIL and o == "err":
+        if why and want is not FAIL and want is not ANY and o == "err":
             for j, e in enumerate(exps):
                 if j < len(tys):
                     known = known or native_shape_issue(tys[j], e, env, map_here=(norm == "map"))
@@ -329,7 +347,7 @@ def run(pid, build_replay):
                                                 "Int / Nat / u128 / i128, Principal, Reserved, Box recursion): the composition the deductive units assume"],
                                   "bound": f"{len(cases)} seeded messages, {per_type} for each of {len(NATIVE)} Rust types ({'; '.join(n[0] for n in NATIVE)}); wire types = the Candid type "
                                            f"of the Rust type after sender-side edits (nat for int, fields added / dropped, options added / dropped / mismatched, fewer or unknown "
-                                           f"variant tags, surplus / missing arguments); {nfail} of them have no coercion (an error is demanded); {nknown} of them meet one of the two recorded findings "
+                                           f"variant tags, surplus / missing arguments); about a fifth of the messages once more with one to three bytes damaged at random (a value or an error is demanded, never a panic); {nfail} of them have no coercion (an error is demanded); {nknown} of them meet one of the two recorded findings "
                                            f"(wire record not a tuple at a Rust tuple / map entry)",
                                   "vectors": len(cases), "disagreements": len(failures), "labelled": "bounded, NOT proved",
                                   "wall_s": round(time.time() - t0, 1)}]}
